@@ -332,7 +332,7 @@ static Result run_exec(const std::vector<int8_t>& prefix)
   memset(who, -1, sizeof who);
   cnt_changed();
   phase = 0;
-  watchdog(20);
+  if ((st_exec & 63) == 0) watchdog(20); // re-armed every 64 executions (each takes microseconds)
   pm_live = true;
   new (pm_buf) Pm(g_workers, g_mode);
   capture_names();
